@@ -437,3 +437,29 @@ Theorem C04_receive_task_forwards_the_datagram_source : forall (f : pfilter) (p 
 Proof. exact Discv5V.Proofs.Limiter.inbound_forwards_normalised_source. Qed.
 Print Assumptions C04_receive_task_forwards_the_datagram_source.
 End C04Recv.
+
+(* The receive task composed with the handler's exemption ledger (Proofs/RecvHandler.v): in every
+   reachable handler state a datagram from an address this node is waiting for - an unanswered request or
+   an unanswered WHOAREYOU - passes the receive task whatever the filter and the ban lists hold; when
+   nothing is outstanding every source is unsolicited. [sa_of] maps the handler model's addresses to the
+   receive task's socket addresses (normalised: the handler never sees any other). *)
+Require Discv5V.Model.Handler Discv5V.Proofs.HandlerInv Discv5V.Model.Limiter Discv5V.Proofs.RecvHandler.
+Module C04Compose.
+Import Discv5V.Model.Handler Discv5V.Proofs.HandlerInv Discv5V.Model.Limiter.
+Theorem C04_awaited_answer_passes_the_receive_task :
+  forall (sa_of : N -> saddr), (forall x, normalise_src (sa_of x) = sa_of x) ->
+  forall c evs a f p packet now, fixed_cfg c ->
+  let h := fst (run c init_state evs) in
+  (0 < cnt_active a h + cnt_chall a h)%nat ->
+  recv_inbound f p (Discv5V.Proofs.RecvHandler.expected_sources sa_of h) (sa_of a) packet now =
+  (f, p, match packet with Some _ => Deliver | None => Unrecognized end, sa_of a).
+Proof. exact Discv5V.Proofs.RecvHandler.awaited_answer_passes_the_receive_task. Qed.
+Print Assumptions C04_awaited_answer_passes_the_receive_task.
+Theorem C04_nothing_outstanding_everything_is_unsolicited :
+  forall (sa_of : N -> saddr) c evs f p src packet now, fixed_cfg c ->
+  let h := fst (run c init_state evs) in
+  active h = nil -> challenges h = nil ->
+  recv_inbound f p (Discv5V.Proofs.RecvHandler.expected_sources sa_of h) src packet now = recv_inbound f p nil src packet now.
+Proof. exact Discv5V.Proofs.RecvHandler.nothing_outstanding_everything_is_unsolicited. Qed.
+Print Assumptions C04_nothing_outstanding_everything_is_unsolicited.
+End C04Compose.
